@@ -251,6 +251,23 @@ theorem copy_disjoint (inh : Option Bool) (next : Nat) (t c : Node) (n' : Nat) (
   have := hw x hxw
   omega
 
+/-- **Several copies in one run** (`copy.deepcopy([p, soup])`, an object referring to a tag and to its document, two
+    `deepcopy(x, memo)` calls sharing a memo): `__deepcopy__` does not consult the memo, so each element is copied on its own,
+    whatever their relation (one inside the other, the same twice) — the second copy is the recursion on its own original and
+    re-uses no object of the first -/
+theorem copy_run_two (inh1 inh2 : Option Bool) (next : Nat) (t1 t2 c1 c2 : Node) (n1 n2 : Nat)
+    (h1 : copyImpl inh1 next t1 = some (c1, n1)) (h2 : copyImpl inh2 n1 t2 = some (c2, n2)) :
+    c1 = (copySpec inh1 next t1).1 ∧ c2 = (copySpec inh2 n1 t2).1 ∧ ∀ x ∈ ids c1, x ∉ ids c2 := by
+  refine ⟨(copyImpl_some h1).1, (copyImpl_some h2).1, ?_⟩
+  intro x hx hx2
+  have a := ((copy_fresh inh1 next t1 c1 n1 h1).1 x hx).2
+  have b := ((copy_fresh inh2 n1 t2 c2 n2 h2).1 x hx2).1
+  omega
+
+/-- non-vacuity: a tag and then the tree it lives in -/
+example : ∃ c1 n1 c2 n2, copyImpl none 10 (.tag 4 dB []) = some (c1, n1) ∧ copyImpl none n1 exP = some (c2, n2) :=
+  ⟨_, _, _, _, copy_refines _ _ _, copy_refines _ _ _⟩
+
 /-- **Detached.** The copy is a root: its root object is none of the objects of any existing tree, so it is in no
     `contents` list (no parent, no siblings) — and the loop left nothing open (`copy_refines`). -/
 theorem copy_detached (inh : Option Bool) (next : Nat) (t c : Node) (n' : Nat) (h : copyImpl inh next t = some (c, n'))
@@ -417,6 +434,21 @@ theorem eq_never_confuses_ancestor_and_descendant (a x : Node) (ha : DictOK a) (
     | true => have := eq_same_size x a hx ha he; omega
 
 example : Below exP (.tag 4 dB []) := .kid (by simp)
+
+/-- in particular `==` does not look at the XML namespace, the prefix, any setting or any container class of a tag: changing
+    them changes no comparison (an SVG `<a>` equals an HTML `<a>` with the same name, attributes and children) -/
+theorem eq_ignores_namespace_prefix_settings (i j : Nat) (d : TagData) (ns' pfx' : Option PStr) (st' : Settings)
+    (pc : Option Nat) (dc ac : Nat) (ks : List Node) (u : Node) (hd : DictOK (.tag i d ks)) (hu : DictOK u) :
+    eqImpl (.tag j { d with ns := ns', pfx := pfx', st := st', parserClass := pc, dictCls := dc, avlCls := ac } ks) u =
+      eqImpl (.tag i d ks) u ∧
+    eqImpl u (.tag j { d with ns := ns', pfx := pfx', st := st', parserClass := pc, dictCls := dc, avlCls := ac } ks) =
+      eqImpl u (.tag i d ks) := by
+  have hd' : DictOK (.tag j { d with ns := ns', pfx := pfx', st := st', parserClass := pc, dictCls := dc, avlCls := ac } ks) := by
+    simpa [DictOK] using hd
+  exact ⟨eq_depends_on_canon_only _ _ _ _ hd' hd hu hu rfl rfl, eq_depends_on_canon_only _ _ _ _ hu hu hd' hd rfl rfl⟩
+
+example : eqImpl exP (.tag 1 { dP with ns := some (ofS "http://www.w3.org/2000/svg"), pfx := none } [.str 3 0 (ofS "t"), .tag 4 dB [],
+    .str 5 5 (ofS "c")]) = true := by decide +kernel
 
 /-- **Attribute order is irrelevant**: permuting the attributes of a tag gives an equal tag -/
 theorem attr_order_irrelevant (i j : Nat) (d : TagData) (attrs' : Attrs) (ks : List Node)
